@@ -347,7 +347,7 @@ PROPS['C17'] = {
 PROPS['C20'] = {
     'rules': [R(op.rule_OP1, modules=('finfields', 'gfpx')), R(op.rule_OP2), R(op.rule_OP5), R(op.rule_OP10)],
     'floors': {'OP1': 15, 'OP2': 20, 'OP5': 4, 'OP10': 4},
-    'explanation': 'Operator-table clauses: for every class of finfields and gfpx the reflected operator of a non-commutative operation applies the same '
+    'explanation': 'Binary and in-place shifts of every class apply the same operation with the same operand expression to the value (OP10). Operator-table clauses: for every class of finfields and gfpx the reflected operator of a non-commutative operation applies the same '
                    'primitive with (other, self) order and is not an alias of the forward one; comparison mirrors swap (OP1). Every in-place '
                    'operator that writes self.value reduces it modulo the field modulus before returning self (or stores the result of the helper the '
                    'forward operator trusts), the constructors reduce, and binary operators build results through the reducing constructor (OP2). '
@@ -392,9 +392,9 @@ PROPS['C26'] = {
              'invariant of the search loop; not primality.',
 }
 PROPS['C28'] = {
-    'rules': [R(ss.rule_SS4), R(cf.rule_G1), R(pc.rule_PC1), R(op.rule_OP1, modules=('secgroups', 'fingroups'))],
-    'floors': {'SS4': 9, 'G1': 10, 'PC1': 40, 'OP1': 1},
-    'explanation': 'Convention clauses: both public-base exponentiations weight the local share with the Lagrange coefficient of point pid+1 among 1..m '
+    'rules': [R(ss.rule_SS4), R(cf.rule_G1), R(pc.rule_PC1), R(op.rule_OP1, modules=('secgroups', 'fingroups')), R(op.rule_ID1)],
+    'floors': {'SS4': 9, 'G1': 10, 'PC1': 40, 'OP1': 1, 'ID1': 1},
+    'explanation': 'The secure normalize of Weierstrass projective points selects every returned coordinate on the zero test its plain sibling branches on, other than through the divisor (ID1). Convention clauses: both public-base exponentiations weight the local share with the Lagrange coefficient of point pid+1 among 1..m '
                    'at 0 (SS4), collect the contributions of all parties (default input / all-to-all transfer) and combine them with the group '
                    'operation, reduce exponents of lifted fields modulo the characteristic, and run under their own program counter (G1, PC1); '
                    'operators of secure/plain groups apply the group operation in (self, other) order (OP1).',
@@ -404,7 +404,7 @@ PROPS['C28'] = {
 PROPS['C37'] = {
     'rules': [R(sg.rule_TC1), R(sg.rule_SG1), R(sg.rule_SG2), R(pc.rule_PC1), R(pa.rule_SS1), R(pa.rule_NL1), R(ss.rule_SS3), R(ss.rule_SS7), R(ss.rule_PR1), R(fx.rule_FX1), R(fx.rule_FX3), R(op.rule_OP6), R(op.rule_OP7), R(sg.rule_AW1), R(sn.rule_IP1), R(sn.rule_SN1), R(sn.rule_SN2), R(sn.rule_SN3), R(sg.rule_WK1)],
     'floors': {'OP7': 12, 'AW1': 18, 'IP1': 4, 'TC1': 10, 'SG1': 10, 'SG2': 1, 'PC1': 40, 'SS1': 60, 'NL1': 25, 'SS3': 9, 'SS7': 8, 'PR1': 12, 'FX1': 60, 'FX3': 15, 'OP6': 14, 'SN1': 4, 'SN2': 2, 'SN3': 3},
-    'explanation': 'Sibling and plumbing clauses for code the suite cannot even import (no numpy): array coroutines agree with their scalar siblings on '
+    'explanation': 'Worker-thread results of the array square root are placed by a look-up from the completed future, never in completion order (WK1). Sibling and plumbing clauses for code the suite cannot even import (no numpy): array coroutines agree with their scalar siblings on '
                    'mask bounds (as linear forms), opening thresholds, option/field-size case splits, PRSS calls and head-room (SG1); a type that is an '
                    'array type is never tested against a scalar secure class (TC1); integral= is passed to polymorphic constructors only under a '
                    'fixed-point guard (SG2); a NumPy ufunc applied to (plain, secure) operands is delegated in reflected form -- mirrored comparison or '
